@@ -174,7 +174,7 @@ def ob_range():
 
 def obligations(tier):
     obs = [ob_float('bytes_to_float'), ob_float('gen_floats'), ob_isingl_same(), ob_range()]
-    obs.append(Ob('bit_deinterleave_blocks', 'ch', '1..3 channels, 1..2 data blocks of 1..3 frames each, either direction',
+    obs.append(Ob('bit_deinterleave_blocks', 'ch', '1..3 channels, 1..2 data blocks of 1..3 frames each, either direction, header range far longer than or shorter than the frames recorded',
                   ['BIT.ReadBIT.BITFrameArray.__init__/add_block/complete', 'ReadBIT.gen_floats'], harness='C13_bit', func='check_blocks',
                   timeout=120 if tier == 'quick' else 600, stubs=['list-backed numpy stand-in (engine/fakenp.py) for LogPass.FrameChannel storage']))
     obs.append(Ob('bit_deinterleave_symbolic_bytes', 'ch', '2 channels, 1..2 blocks of 2 / 1..2 frames, one fully symbolic mantissa byte per block',
